@@ -510,6 +510,27 @@ func c09Sharing(r *mon.Run) {
 			}
 			r.Count("shared_signature_sequences", 1)
 		}
+		// one argument slice (with nil entries in front of real ones) given to list constructs of several Files
+		{
+			args := []jen.Code{jen.Id("ctx"), nil, jen.Qual(paths[rnd.Intn(len(paths))], "Req"), jen.Null(), nil, jen.Lit(i)}
+			fresh := func() []jen.Code { return append([]jen.Code(nil), args...) }
+			snapshot := fresh()
+			for j := 0; j < k; j++ {
+				st := settings[rnd.Intn(len(settings))]
+				fa, fb := st.mk(), st.mk()
+				fa.Var().Id("v").Op("=").Id("send").Call(args...)
+				fa.Var().Id("w").Op("=").Index().Interface().Values(args...)
+				cp := fresh()
+				copy(cp, snapshot)
+				fb.Var().Id("v").Op("=").Id("send").Call(cp...)
+				fb.Var().Id("w").Op("=").Index().Interface().Values(append([]jen.Code(nil), cp...)...)
+				if outHash(fa) != outHash(fb) {
+					r.Violate("shared-code-renders-by-other-file", c, "an argument slice (nil entries in front of real items) shared by the list constructs of several Files: File #%d (%s) renders differently from the same File built from a private copy of the slice", j, st.name)
+					break
+				}
+			}
+			r.Count("shared_argument_slice_sequences", 1)
+		}
 		r.Eval(fmt.Sprintf("share|%d|%v", i, seq), true)
 		r.Count("sharing_sequences", 1)
 	})
